@@ -172,7 +172,7 @@ for g in range(32):
     H("c01_compute_and_or_g%d" % g, "c01_compute::c01_compute_and_or_g%d" % g, ["C01"], ["compute_expression::Computer::replace_with (and/or arms)", "LuaValue::is_truthy"],
       "one `L and R` / `L or R` node, control scenarios of group %d of harness/src/c01_scenarios_g*.in (96 in all: operator x whether R is a real call expression x what evaluate(L) answers {nil, true, table, Unknown} x what has_side_effects answers for L and for the node x what evaluate(node) answers {nil, true, Unknown}); "
       "operand values (any f64 for numbers), the right operand (leaf / call / `...`, value, effects) and the operands' real behaviour symbolic" % g,
-      tier="quick" if g <= 1 else "thorough", mode="lean", timeout_s=1200, mem_gb=34, replay="compute_and_or_g%d" % g,
+      tier="quick" if g == 0 else "thorough", mode="lean", timeout_s=1200, mem_gb=28 if g == 0 else 34, replay="compute_and_or_g%d" % g,
       stubs=[EVAL_STUB, SE_STUB, "LuaValue::to_expression -> records the folded value and returns a marker (literal construction runs log10/powf)",
              "<Expression as Clone>::clone -> copy of the harness's identifier leaves", "Computer::process_expression (the recursive re-processing of the replacement) -> no-op"],
       assumptions=["under Kani the left operand is an identifier leaf whatever its shape and the right operand is an identifier leaf or a real call `b()` (scenario constant): code that inspects the variant of the RIGHT operand (e.g. to parenthesise a call) sees a real call; `...` as right operand and calls as left operand remain model attributes",
